@@ -133,7 +133,7 @@ func genTags(tier string, seed uint64) {
 	}
 	var ts []reflect.Type
 	for _, v := range []interface{}{Inner{}, (*Inner)(nil), (***Inner)(nil), []*Inner{}, WithPtr{}, Emb{}, HasShape{}, []Shape{}, TrNum(0), []TrNum{},
-		[2]TrBytes{}, map[string]*Rec{}, []interface{}{}, map[string]interface{}{}, Circle{}, map[TrNum]int{}, TrSq{}, []TrSq{}, map[string]TrSq{}, TrOpt{}, []TrOpt{}, []TrMap{}} {
+		[2]TrBytes{}, map[string]*Rec{}, []interface{}{}, map[string]interface{}{}, Circle{}, map[TrNum]int{}, TrSq{}, []TrSq{}, map[string]TrSq{}, TrOpt{}, []TrOpt{}, []TrMap{}, Digest{}, []Digest{}, TwoTr{}} {
 		ts = append(ts, reflect.TypeOf(v))
 	}
 	ts = append(ts, reflect.TypeOf((*interface{})(nil)).Elem())
@@ -159,6 +159,10 @@ func genTags(tier string, seed uint64) {
 				emit("unmbytes cbor %d %d %s", aid, tid(reflect.TypeOf(Inner{})), hx)
 				emit("unmbytes cbor %d %d %s", aid, tid(reflect.TypeOf(TrNum(0))), hx)
 				emit("unmbytes cbor %d %d %s", aid, tid(reflect.TypeOf(TrSq{})), hx)
+				// inside an indefinite-length array, followed by an untagged item and by a tagged one
+				emit("unmbytes cbor %d %d 9f%s%sff", aid, ifaceT, hx, it)
+				emit("unmbytes cbor %d %d 9f%s%sff", aid, tid(reflect.TypeOf([]interface{}{})), hx, hx)
+				emit("unmbytes cbor %d %d bf6161%s6162%sff", aid, ifaceT, hx, it)
 			}
 		}
 	}
